@@ -165,7 +165,7 @@ def run(ctx):
 
 
 META = {
-    "technique": "operand-order analysis of json `+` chains with provenance classification (settings / stored device properties / user parameters; path literals containing modes/), must-precede checks for the modes removal, argument-flow facts for the mode",
+    "technique": "operand-order analysis of json `+` chains with provenance classification (settings / stored device properties / user parameters; path literals containing modes/), single-source check on every argument handed to a specificity-resolving helper, must-precede checks for the modes removal, argument-flow facts for the mode",
     "level": "Static decision for every property-layering expression in src/core/device.cpp that layers are merged in non-decreasing specificity (the right operand of json + wins), that the helpers remove the modes subtrees "
              "before returning so other modes' entries cannot take effect, and that the mode segment and the mode argument are the device's own mode. Covers all property sets because it is a statement about the merge expressions.",
     "note": "Relies on C25-R4 for the semantics of json + (right wins, recursive). Does not decide env-variable driven settings (src/occa/internal/utils/env.cpp only initialises settings()).",
